@@ -119,7 +119,7 @@ def check_p1(rep, idx):
     check_stack(rep, evs, stack, "diff::detail::dr_numerical", problems, stats, False)
     if stack:
         problems.append((stack[-1][2], "perturbation on %s is never restored" % stack[-1][0]))
-    if stats["perturb"] < 8 or stats["pairs"] < 4:
+    if not problems and (stats["perturb"] < 8 or stats["pairs"] < 4):
         rep.broke("P1: only %d perturbation assignments / %d pairs recognised in dr_numerical (8 / 4 confirmed by hand)" % (stats["perturb"], stats["pairs"]))
     rep.instance("P1", "diff::detail::dr_numerical", "pairing", ok=not problems, sample={"file": fe.rel(fn.file), "line": fn.line, **stats})
     for node, msg in problems:
